@@ -5,10 +5,12 @@ mod c16;
 mod driver;
 mod explore;
 mod fault;
+mod hooks;
 mod limits_key;
 mod mock;
 mod server_core;
 mod server_props;
+mod stubs;
 
 use client_props::{CProp, ClientHarness};
 use server_props::{SProp, ServerHarness};
@@ -135,6 +137,12 @@ fn run(prop: &str, tier: Tier, replay: Option<String>) -> i32 {
     }
     if prop == "C16" {
         return c16::run_c16(tier);
+    }
+    if prop == "C20" {
+        return stubs::run_c20(tier);
+    }
+    if prop == "C19" {
+        return hooks::run_c19(tier);
     }
     let parts = parts_for(prop, tier);
     if !parts.is_empty() {
